@@ -1,7 +1,7 @@
 (* C11 — Tableau algebra and Clifford conversions are exact, signs included. *)
 From Coq Require Import List Bool String ZArith.
 Import ListNotations.
-Require Pauli Collapse Span Tab.
+Require Pauli Collapse Span Tab TabThen.
 Require Import Stab Act RowProg Gen_GateTable Gen_Prepend GenProofs_Prepend TableAut.
 
 (* a tableau with Hermitian row images satisfying the canonical commutation relations, read as the map
@@ -29,5 +29,13 @@ Theorem C11_collapse_clifford_invertible :
   forall (ms : list bool) (h e : bool) (P : Pauli.z4 * list (bool * bool)), List.length (snd P) = S (List.length ms) ->
   Collapse.A0inv ms h e (Collapse.A0 ms h e P) = P /\ Collapse.A0 ms h e (Collapse.A0inv ms h e P) = P.
 Proof. intros ms h e P H. split; [apply Collapse.A0inv_A0 | apply Collapse.A0_A0inv]; exact H. Qed.
-Print Assumptions C11_apply_mul_hom. Print Assumptions C11_prepend_routines_match_table.
+(* Tableau::then: the tableau whose rows are B applied to A's rows acts as "A, then B", phases included; any n *)
+Theorem C11_then_is_composition :
+  forall (n : nat) (xsB zsB : list Pauli.pauli),
+  List.length xsB = n -> List.length zsB = n -> Tab.herm n xsB -> Tab.herm n zsB ->
+  Tab.pairwise_comm xsB -> Tab.pairwise_comm zsB -> Tab.dual zsB xsB ->
+  forall (xsA zsA : list Pauli.pauli) P, Forall (Span.wfn n) xsA -> Forall (Span.wfn n) zsA ->
+  Tab.eval n (map (Tab.eval n xsB zsB) xsA) (map (Tab.eval n xsB zsB) zsA) P = Tab.eval n xsB zsB (Tab.eval n xsA zsA P).
+Proof. exact TabThen.then_is_composition. Qed.
+Print Assumptions C11_then_is_composition. Print Assumptions C11_apply_mul_hom. Print Assumptions C11_prepend_routines_match_table.
 Print Assumptions C11_collapse_clifford_invertible.
